@@ -447,11 +447,12 @@ def run(tier, seed):
                 trouble = mk_pel(rng, 'x', [ud_sec(rng, 0x2222), ud_sec(rng, 0x3333), ud_sec(rng, 0x8888), ud_sec(rng, 0x5A5A), src_sec(rng, b'BD128D34', [b'PROCBAD!'])])
                 files = [(n, apel.enc_pel(p)) for n, p in d] + [('zz_junk', b'PHjunk'), ('!0_trouble', trouble)]
                 path = clirun.make_dir(files)
-                a, _, _ = clirun.run_main(['-p', path, '-a', '-E'])
-                r, _, _ = clirun.run_main(['-p', path, '-a', '-E', '-r'])
+                sel = rng.choice([['-E'], ['-E'], ['-S', 'Unrecoverable', 'Predictive', 'Informational'], ['-H', '-N'], ['-S', 'Critical', 'Recovered', '-s']])
+                a, _, _ = clirun.run_main(['-p', path, '-a'] + sel)
+                r, _, _ = clirun.run_main(['-p', path, '-a', '-r'] + sel)
                 singles = []
                 for n, _ in sorted(files):
-                    so, _, _ = clirun.run_main(['-f', os.path.join(path, n), '-E'])
+                    so, _, _ = clirun.run_main(['-f', os.path.join(path, n)] + sel)
                     if so.strip():
                         try:
                             singles.append(json.loads(so))
@@ -459,7 +460,7 @@ def run(tier, seed):
                             singles.append({'<-f output is not JSON>': so[:300]})
                 ck.case(key=('dir', tuple(files)))
                 ck.count('directory order')
-                rp = {'op': 'dir-order', 'files': [(n, b.hex()) for n, b in files]}
+                rp = {'op': 'dir-order', 'argv': sel, 'files': [(n, b.hex()) for n, b in files]}
                 try:
                     la, lr = json.loads(a), json.loads(r)
                     if la != list(reversed(lr)):
